@@ -189,13 +189,15 @@ def _unjson(tla_string_literal):
     return v
 
 
-def _tv_one(ctx, module, trace, timeout, label, constants, env):
+def _tv_one(ctx, module, trace, timeout, label, constants, env, invariants=()):
     cfg = ctx.path(f"{label}.cfg")
     lines = ["SPECIFICATION Spec"]
     if constants:
         lines.append("CONSTANTS")
         for k, v in constants.items():
             lines.append(f"  {k} = {tla_val(v)}")
+    for inv in invariants:
+        lines.append(f"INVARIANT {inv}")
     lines += ["POSTCONDITION Accepted", "CHECK_DEADLOCK FALSE"]
     open(cfg, "w").write("\n".join(lines) + "\n")
     out = ctx.path(f"{label}.out")
@@ -212,7 +214,7 @@ def _tv_one(ctx, module, trace, timeout, label, constants, env):
     return p, fo, out, md
 
 
-def run_tv(ctx, module, trace, timeout=1800, label=None, constants=None, env=None, shards=None):
+def run_tv(ctx, module, trace, timeout=1800, label=None, constants=None, env=None, shards=None, invariants=()):
     """Validates a recorded NDJSON trace against spec/<module>.tla (split into shards run in parallel).
     Returns list of (id, detail, tag, extra)."""
     label = label or module
@@ -231,7 +233,7 @@ def run_tv(ctx, module, trace, timeout=1800, label=None, constants=None, env=Non
             o.close()
         files = [o.name for o in outs]
     t = time.time()
-    procs = [_tv_one(ctx, module, fpath, timeout, f"{label}-{i}", constants, env) for i, fpath in enumerate(files)]
+    procs = [_tv_one(ctx, module, fpath, timeout, f"{label}-{i}", constants, env, invariants) for i, fpath in enumerate(files)]
     mism = []
     tot_consumed = tot_total = tot_bad = 0
     generated = distinct = 0
